@@ -6,6 +6,7 @@ BFS to fixpoint over building histories (C02's alphabet with own ids on A and B,
 with EVERY id in the database (A's own, B's, the passive bucket's, never-existed)
 plus update_bucket(A, each field) and delete_bucket(A).  Oracle: listing and
 metadata of every other bucket identical before/after; the op may succeed or raise."""
+import itertools
 import json
 
 from mc import engine
@@ -274,6 +275,48 @@ def _expand(hist):
                     size=len(hist) * 100 + len(json.dumps(case)) + 50,
                 )
         ds = None
+    # ONE Event object handed to B and then to A (a caller re-using its event): whatever A does with the
+    # object, B's stored event stays as B's operation left it (seeded: memory replace stored the caller's
+    # own object, and a later replace on A with another id renumbered it inside B)
+    if ms[A_].ids() and ms[B_].ids():
+        for kb, ka in itertools.product(("replace", "replace_last", "insert"), ("replace", "replace_last", "insert", "upsert")):
+            ds, mm = replay(backend, wdir, hist)
+            ev = _G["emb"].ev(*E[0])
+            ida, idb = mm[A_].ids()[0], mm[B_].ids()[0]
+            try:
+                if kb == "replace":
+                    ds[B_].replace(idb, ev)
+                elif kb == "replace_last":
+                    ds[B_].replace_last(ev)
+                else:
+                    ds[B_].insert(ev)
+            except Exception:
+                continue
+            f0 = frame(ds, A_)
+            try:
+                if ka == "replace":
+                    ds[A_].replace(ida, ev)
+                elif ka == "replace_last":
+                    ds[A_].replace_last(ev)
+                elif ka == "insert":
+                    ds[A_].insert(ev)
+                else:
+                    ev.id = ida
+                    ds[A_].insert([ev])
+                res = "ok"
+            except Exception as e:
+                res = "raised-" + type(e).__name__
+            f1 = frame(ds, A_)
+            u.transitions += 1
+            u.evaluations += 1
+            u.traces += 1
+            u.nontrivial += 1
+            u.hist["probe_shared_object"] += 1
+            if f0 != f1:
+                chg = [b for b in f0 if f0[b] != f1.get(b)]
+                case = {"backend": backend, "history": [[b, list(o)] for b, o in hist], "shared_object": [kb, ka], "alphabet": c["Ename"]}
+                u.violation(f"{backend}:shared-object:{kb}-then-{ka}:other-bucket-changed", f"{backend} history {list(hist)}: one Event object given to B.{kb} and then to A.{ka} ({res}) changed bucket(s) {chg}: before {[f0[b][1] for b in chg][:1]} after {[f1.get(b, (None, None))[1] for b in chg][:1]}", case, size=len(hist) * 100 + len(json.dumps(case)) + 60)
+        ds = None
     # rejected operations, issued while the last write of the history is still unobserved (buffered
     # on the lazily committing store): the frame expected is the one of the fully observed twin
     if hist:
@@ -338,6 +381,24 @@ def run_case(ctx, case):
         f1 = frame(ds2, A_)
         chg = [b for b in f_want if f_want[b] != f1.get(b)]
         return {"fault_probe": case["fault_probe"], "result": res, "expected_other_buckets": f_want, "observed": f1, "violations": [["other-bucket-changed", b] for b in chg]}
+    if "shared_object" in case:
+        kb, ka = case["shared_object"]
+        ev = _G["emb"].ev(*_E()[0])
+        ida, idb = mm[A_].ids()[0], mm[B_].ids()[0]
+        {"replace": lambda: ds[B_].replace(idb, ev), "replace_last": lambda: ds[B_].replace_last(ev), "insert": lambda: ds[B_].insert(ev)}[kb]()
+        f0 = frame(ds, A_)
+        try:
+            if ka == "upsert":
+                ev.id = ida
+                ds[A_].insert([ev])
+            else:
+                {"replace": lambda: ds[A_].replace(ida, ev), "replace_last": lambda: ds[A_].replace_last(ev), "insert": lambda: ds[A_].insert(ev)}[ka]()
+            res = "ok"
+        except Exception as e:
+            res = "raised-" + type(e).__name__
+        f1 = frame(ds, A_)
+        chg = [b for b in f0 if f0[b] != f1.get(b)]
+        return {"shared_object": [kb, ka], "result": res, "other_buckets_before": f0, "other_buckets_after": f1, "violations": [["other-bucket-changed", b] for b in chg]}
     if "probe" in case:
         op = BL.tup(case["probe"])
         f0 = frame(ds, A_)
